@@ -21,7 +21,29 @@ import (
 
 const pkgPath = "x.io/target"
 
+// renderDiff holds the description of the last snippet that rendered differently the second time.
+var renderDiff string
+
 func render(s snippet.Snippet) (out string, imports map[string]string, pan any) {
+	out, imports, pan = renderOnce(s)
+	// a snippet is a value: rendering the same one again (a name used twice in a template, a list
+	// yielding it twice, a second file) gives the same text or the same panic
+	out2, _, pan2 := renderOnce(s)
+	if out2 != out || (pan == nil) != (pan2 == nil) {
+		renderDiff = fmt.Sprintf("first %q (panic=%v), then %q (panic=%v)", out, pan, out2, pan2)
+	}
+	return
+}
+
+// sameTwice reports (as a violation of the case) a snippet that rendered differently the second time.
+func sameTwice(c *core.Ctx, cs Case, what string) {
+	if renderDiff != "" {
+		c.Fail("", cs, "%s: the same snippet value rendered differently the second time: %s", what, renderDiff)
+		renderDiff = ""
+	}
+}
+
+func renderOnce(s snippet.Snippet) (out string, imports map[string]string, pan any) {
 	defer func() { pan = recover() }()
 	buf := bytes.NewBuffer(nil)
 	tr := namer.NewDefaultImportTracker()
@@ -144,6 +166,7 @@ func checkT(c *core.Ctx, format string, kind int) {
 	nilBound = map[string]bool{"a": ok && (kind == 1 || kind == 2)}
 	want, wantPanic := refT(format, bound, false, false)
 	got, _, pan := render(snippet.T(format, args...))
+	sameTwice(c, cs, fmt.Sprintf("T(%q)", format))
 	c.State(fmt.Sprintf("T/p=%v/%d", pan != nil, strings.Count(format, "@")))
 	if strings.Contains(format, "@") {
 		c.Nontrivial("T|" + format + "|" + bindKinds[kind])
@@ -226,6 +249,7 @@ func checkTShared(c *core.Ctx, calls []SharedCall, renderReversed bool) {
 		c.Trans(1)
 		want, wantPanic := refT(calls[i].Format, bounds[i], false, false)
 		got, _, pan := render(ts[i])
+		sameTwice(c, cs, fmt.Sprintf("T(%q) over the shared map", calls[i].Format))
 		if wantPanic != (pan != nil) || (!wantPanic && got != want) {
 			c.Fail("", cs, "call %d of %d over one shared Args map {b}: T(%q, shared, %s) rendered %q (panic=%v), its own bindings give %q (panic=%v)", i+1, len(calls), calls[i].Format, sharedExtras[calls[i].Extra], got, pan, want, wantPanic)
 			return
@@ -314,6 +338,7 @@ func checkSprintf(c *core.Ctx, format string, args []int) {
 		vals[i] = sargs[a].v
 	}
 	got, _, pan := render(snippet.Sprintf(format, vals...))
+	sameTwice(c, cs, fmt.Sprintf("Sprintf(%q)", format))
 	c.State(fmt.Sprintf("S/p=%v/%d", pan != nil, strings.Count(format, "%")))
 	if strings.Contains(format, "%") {
 		c.Nontrivial(fmt.Sprint("S|", format, args))
@@ -348,6 +373,7 @@ func checkComment(c *core.Ctx, lines []string) {
 	c.Trans(1)
 	text := strings.Join(lines, "\n")
 	got, _, pan := render(snippet.Comment(text))
+	sameTwice(c, cs, "Comment")
 	want := ""
 	if text != "" {
 		parts := make([]string, len(lines))
@@ -381,6 +407,7 @@ func checkDirective(c *core.Ctx, dir string, args []string) {
 	c.Eval(1)
 	c.Trans(1)
 	got, _, pan := render(snippet.GoDirective(dir, args...))
+	sameTwice(c, cs, "GoDirective")
 	want := ""
 	if dir != "" {
 		want = "//go:" + dir
@@ -444,6 +471,7 @@ func checkParts(c *core.Ctx, ks []int) {
 		}
 	})
 	got, _, pan := render(seq)
+	sameTwice(c, cs, "Snippets")
 	c.State(fmt.Sprintf("P/%d", len(ks)))
 	if len(ks) > 1 {
 		c.Nontrivial(fmt.Sprint("P|", ks))
